@@ -26,12 +26,14 @@
 (***************************************************************************)
 EXTENDS Integers, Sequences, FiniteSets, TLC, Json, SequencesExt, FiniteSetsExt
 
-CONSTANTS Insts,        \* sequence of constructor instances (records, see Construct; field `depth` = number of derivations)
+CONSTANTS Insts,        \* sequence of constructor instances (records, see Construct); three fields bound the exploration per
+                        \* instance: depth (number of derivations), fullr (frames with at most this many cells: every subset is a
+                        \* region for apply_noise_scaling), lean (the smaller request / mode alphabets)
           FullCells,    \* frames with at most this many cells: EVERY non-empty subset is a mask for apply_mask
-          FullRegions,  \* frames with at most this many cells: every subset is a region for apply_noise_scaling
           FamMasks,     \* masks for larger frames: set of [h, w, m] (m = set of unmasked cells)
           FamRegions,   \* noise-scaling regions for larger frames: same format
           Requests,     \* over-sampling requests: set of <<bu, bn, bp>> (which of uniform / non_uniform / pixelization is given)
+          RequestsLean, ScaleModesLean,   \* the alphabets of the instances explored deeper
           TrimKernels,  \* kernel shapes <<kh, kw>> (odd) for trimmed_after_convolution_from
           ScaleModes,   \* set of [mode |-> "value" / "snr", zero |-> BOOLEAN, snr |-> 1 / 2]
           Geoms         \* geometries [hy, hx, oy, ox] over which the coordinate theorem is checked
@@ -237,7 +239,7 @@ ConvolverExists(s) == HasPsf(s) /\ ~ FootLeaves(s.um, s.h, s.w, s.kh, s.kw)
 
 -----------------------------------------------------------------------------
 (* Layer 2: the bounded machine.  Init picks a constructor instance, every action is one public derivation; the    *)
-(* history is part of the state, so the state graph is the tree of ALL derivation sequences up to MaxDepth and each *)
+(* history is part of the state, so the state graph is the tree of ALL derivation sequences up to the depth and each  *)
 (* node is dumped once (it is replayed on real objects, all members read at every node).  The depth is a field of   *)
 (* the instance, so that tiny frames can be followed deeper than larger ones in one run.                            *)
 
@@ -254,12 +256,12 @@ NoiseValue == 16 * (Len(hist) + 1)   \* a fresh value per step, above every inpu
 
 MasksOf(h, w) == IF h*w <= FullCells THEN (SUBSET (0 .. h*w - 1)) \ {{}}
                  ELSE { f.m : f \in { x \in FamMasks : x.h = h /\ x.w = w } }
-RegionsOf(h, w) == IF h*w <= FullRegions THEN SUBSET (0 .. h*w - 1)
+RegionsOf(h, w) == IF h*w <= Ini.fullr THEN SUBSET (0 .. h*w - 1)
                    ELSE { f.m : f \in { x \in FamRegions : x.h = h /\ x.w = w } }
 BaseShape(s) == IF IsFull(s.um) THEN << s.h, s.w >> ELSE << s.par.h, s.par.w >>
 
 Dump == PrintT(ToJson([k |-> "inst", iid |-> iid, hist |-> hist']))
-Take(a) == /\ Step(st, a).dom
+Take(a) == /\ Step(st, a).dom         \* (only derivations inside the documented domain are taken)
            /\ st' = Step(st, a)
            /\ hist' = Append(hist, a)
            /\ UNCHANGED iid
@@ -276,7 +278,7 @@ ApplyMask ==
 
 ApplyOverSampling ==
     /\ CanAct
-    /\ \E q \in Requests :
+    /\ \E q \in (IF Ini.lean THEN RequestsLean ELSE Requests) :
           LET i1 == NextId
               i2 == i1 + (IF q[1] THEN 1 ELSE 0)
               i3 == i2 + (IF q[2] THEN 1 ELSE 0)
@@ -284,7 +286,7 @@ ApplyOverSampling ==
 
 ApplyNoiseScaling ==
     /\ CanAct /\ IsImg /\ IsFull(st.um)
-    /\ \E m \in RegionsOf(st.h, st.w), md \in ScaleModes :
+    /\ \E m \in RegionsOf(st.h, st.w), md \in (IF Ini.lean THEN ScaleModesLean ELSE ScaleModes) :
           Take([Blank EXCEPT !.a = "scale", !.mh = st.h, !.mw = st.w, !.m = SetToSortSeq(m, <), !.mode = md.mode,
                              !.zero = md.zero, !.snr = md.snr, !.nval = NoiseValue])
 
